@@ -160,6 +160,53 @@ def body_line(ctx, case):
         ctx.nontrivial(("line", repr(case)))
 
 
+# ---------------------------------------------------------------- ALTO word / line confidences under per-frame constants
+def body_alto(ctx, case):
+    import logging
+    import re
+    from pero_ocr.core.layout import PageLayout, RegionLayout
+    from pero_ocr.core.force_alignment import align_text
+    logging.getLogger("pero_ocr.core.layout").setLevel(logging.CRITICAL)
+    case = dict(case, full=True)
+    labels = case["labels"]
+    desc = lambda: "case=%r" % (case,)
+
+    def export(shift):
+        line, full, dense = make_line(case, shift=shift)
+        T = dense.shape[0]
+        line.baseline = np.asarray([[10.0, 60.0], [10.0 + 9 * T, 62.0]])
+        line.heights = [20.0, 8.0]
+        line.polygon = np.asarray([[10.0, 40.0], [10.0 + 9 * T, 42.0], [10.0 + 9 * T, 70.0], [10.0, 68.0]])
+        # blanks between some characters so that there are several words
+        text = "".join(CHARS[c] for c in labels)
+        line.transcription = text
+        pl = PageLayout(id="p", page_size=(200, 40 + 9 * T))
+        reg = RegionLayout("r", np.asarray([[0, 0], [30 + 9 * T, 0], [30 + 9 * T, 150], [0, 150]], dtype=np.float64))
+        reg.lines = [line]
+        pl.regions = [reg]
+        lp = line.get_full_logprobs()[line.logit_coords[0]:line.logit_coords[1]]
+        al = [int(x) for x in align_text(-lp, np.asarray(labels), lp.shape[1] - 1)]
+        xml = ctx.must("alto_export_raises", pl.to_altoxml_string)
+        wcs = [float(x) for x in re.findall(r'WC="([^"]+)"', xml)]
+        return wcs, line.transcription_confidence, al, T
+    wc0, conf0, al0, T = export(None)
+    rs = np.random.RandomState(case["shifts_seed"])
+    shift = rs.uniform(-5, 5, size=T + 8)
+    wc1, conf1, al1, _ = export(shift)
+    for w in wc0 + wc1:
+        ctx.check(0.0 <= w <= 1.0, "word_confidence_out_of_range", lambda: "%r %r; " % (wc0, wc1) + desc())
+    ctx.check(conf0 is not None and 0.0 <= conf0 <= 1.0 + 1e-9, "alto_line_confidence_out_of_range", lambda: "%r; " % (conf0,) + desc())
+    if al0 != al1:
+        ctx.event("alignment_flipped_by_shift")
+        return
+    ctx.check(len(wc0) == len(wc1) and all(abs(a - b) <= 0.011 for a, b in zip(wc0, wc1)), "word_confidence_changes_with_frame_constant",
+              lambda: "WC before %r after %r; " % (wc0, wc1) + desc())
+    ctx.check(abs(float(conf0) - float(conf1)) < 1e-5, "alto_line_confidence_changes_with_frame_constant",
+              lambda: "line confidence before %r after %r; " % (conf0, conf1) + desc())
+    if len(labels) >= 2 and T >= 2 * len(labels):
+        ctx.nontrivial(("alto", repr(case)))
+
+
 # ---------------------------------------------------------------- thresholds
 def strat_thr():
     from hypothesis import strategies as st
@@ -242,6 +289,7 @@ def body_bag(ctx, case):
 
 UNITS = [
     Unit("lines", "given", body=body_line, strategy=strat_line, quick=1200, thorough=25000),
+    Unit("alto_confidences", "given", body=body_alto, strategy=strat_line, quick=500, thorough=8000),
     Unit("threshold", "given", body=body_thr, strategy=strat_thr, quick=1000, thorough=20000),
     Unit("bags", "given", body=body_bag, strategy=strat_bag, quick=1000, thorough=20000),
 ]
